@@ -111,6 +111,16 @@ def edited_schema_cases(ctx, work):
         ctx.case(("roundtrip", k, len(text)), True)
         if s1 != s2 or json.loads(s1.asjson()) != schema:
             ctx.violate("schema does not survive the JSON round trip", inp0, "equal", "differs")
+        if ctx.driver_ok:
+            # the Lean model of asdict/fromdict on the real document: ofJ then toJ must reproduce it, and reject another version
+            m = ctx.driver.ask({"op": "schema.json_roundtrip", "doc": schema, "expected_version": schema["format_version"]})
+            ctx.count("json_model_roundtrip")
+            if m.get("doc") != schema:
+                bad = "error" if "error" in m else next((k for k in schema if m["doc"].get(k) != schema[k]), "?")
+                ctx.disagree(f"Model.SchemaJson round trip of the real schema document differs at '{bad}'", inp0, str(m)[:300], "document")
+            m2 = ctx.driver.ask({"op": "schema.json_roundtrip", "doc": schema, "expected_version": "9.9"})
+            if "error" not in m2:
+                ctx.disagree("Model.SchemaJson accepts a schema of another format version", inp0, m2.get("n_fields"), "ValueError")
         ref = pathlib.Path(work) / f"e{k}_ref.zarr"
         shutil.rmtree(ref, ignore_errors=True)
         vcf2zarr.encode(icf, ref, worker_processes=0)
